@@ -15,6 +15,7 @@ import (
 	"github.com/semihalev/sdns/internal/verif/vlib"
 	"github.com/semihalev/sdns/middleware"
 	"github.com/semihalev/sdns/middleware/cache"
+	"github.com/semihalev/sdns/middleware/dns64"
 )
 
 // rrItem is one record of an op line:
@@ -189,6 +190,25 @@ func execTTL(f []string) vlib.Res {
 			or = fmt.Sprintf("FAIL sig=ttl/calc/failure-class-too-long got=%ds", ceilSec(got))
 		}
 		return vlib.Res{Impl: fmt.Sprint(ceilSec(got)), Oracle: or, Tags: tags}
+	case "neg64":
+		// dns64.negativeAAAATTL on an AAAA answer whose authority section is f[2] (items; the first SOA counts)
+		items := parseItems(f[2])
+		m := buildCalcMsg(0, nil, items, nil)
+		got, ok := dns64.VerifC04NegativeAAAATTL(m)
+		impl, or := "none", "ok"
+		if ok {
+			impl = fmt.Sprint(got)
+		}
+		for _, it := range items {
+			if it.kind == 's' {
+				// the negative TTL may exceed neither the SOA's header TTL nor its MINIMUM
+				if !ok || int64(got) > int64(it.ttl) || int64(got) > it.a {
+					or = fmt.Sprintf("FAIL sig=ttl/neg64/exceeds-soa-ttl-or-minimum got=%s hdr=%d min=%d", impl, it.ttl, it.a)
+				}
+				break
+			}
+		}
+		return vlib.Res{Impl: impl, Oracle: or, Tags: "nt"}
 	case "sig":
 		ttl := uint32(vlib.AtoU64(f[2]))
 		tue := time.Duration(vlib.AtoI64(f[3]))
